@@ -27,6 +27,8 @@ def run(ctx: core.Ctx):
     ctx.lean_stage(extra_props=("Tie",))
     b2check.run_b2(ctx, jobs, ["C12"], label="long idle sessions")
     b2check.run_b2(ctx, jobs_slow, MONS, label="slow (blocking) writes, monitor only", accept=False)
+    b2check.run_b2(ctx, lambda rng, th: [(gen.with_second(rng, gen.conn_traffic(rng, max_threads=2, max_cmds=10)), rng.randrange(10 ** 9), rng.choice([0, 3])) for _ in range(3000 if th else 80)], ["C12two"],
+                   label="a second connection with its own traffic alive in the same process (monitor only, first connection judged)", accept=False)
     b2check.run_b2(ctx, lambda rng, th: [(gen.conn_busy_callback(rng), rng.randrange(10 ** 9), rng.choice([0, 3])) for _ in range(3000 if th else 100)],
                    MONS, label="message callbacks still running when the keep-alive timer expires")
     def jobs_hot(rng, th):
